@@ -41,6 +41,8 @@ def _norm_items(fn_node, items):
             out.append(("ret", _norm(fn_node, it[1]) if it[1] else None))
         elif it[0] == "rebind":
             out.append(("rebind", _norm(fn_node, it[1]), {k: (_norm(fn_node, v[0]), v[1]) for k, v in it[2].items()}, it[3]))
+        elif it[0] == "paramassign":
+            out.append(("paramassign", _norm(fn_node, it[1]), _norm(fn_node, it[2]), it[3]))
         else:
             out.append(it)
     return out
@@ -314,6 +316,16 @@ def cas1(ctx, c):
                 continue
             npaths += 1
             site = "%s[%s]" % (name, cd)
+            for it in flat:
+                if it[0] == "paramassign":
+                    benign = re.fullmatch(r"\$\d+(\.(upper|strip)\(\)|\.ljust\(\d+(, '[ \\x00]')?\)|\[:(\d+)\])*", it[2]) is not None
+                    m8 = re.findall(r"\[:(\d+)\]", it[2])
+                    if benign and all(int(k) >= 8 for k in m8):
+                        continue
+                    c.finding(site + ":source", "the value written is first rewritten: %s = %s" % (it[1], it[2][:40]),
+                              "%s rewrites its input before writing it (%s = %s): the block then carries the rewritten value, not the file's own field" % (name, it[1], it[2][:60]),
+                              "%s:%d" % (repo.cls(CLS).module.rel, it[3].lineno))
+            flat = [x for x in flat if x[0] != "paramassign"]
             flat = apply_rebinds(flat)
             frame, accs, tail, closed = _frame(flat)
             if not closed or len(frame) < 6:
@@ -420,6 +432,19 @@ def _namefile_payload(c, name, site, payload, where):
         c.undecided(site + ":name", "name-field-shape-unknown", "", where)
         return
     c.check(flat[0][1] == 8, site + ":name", "8 name bytes", "name loop writes %s bytes" % flat[0][1], "%s: the file name field is not 8 bytes" % name, where)
+    rep = flat[0][2]
+    lv = rep[4]
+    srcs = set()
+    for conds_, fl in paths(rep[3]):
+        for x in fl:
+            if x[0] == "byte" and x[2] is None:
+                srcs.add(x[1])
+    goodsrc = lv is not None and all(re.fullmatch(r"ord\(\$1\.name\[%s\]\)" % re.escape(lv), t) for t in srcs) and srcs
+    if goodsrc:
+        c.ok(site + ":name-source", "name byte i = name[i] (padded)", where)
+    else:
+        c.check(False if any("name" not in t for t in srcs) else None is None and bool(srcs) and all("$1.name" in t and ("[%s]" % lv) in t for t in srcs), site + ":name-source",
+                "name byte i = name[i]", "name bytes taken from %s" % sorted(srcs), "%s: the name field is filled from %s, not character i of the file name" % (name, sorted(srcs)), where)
     rest = [x[1] for x in flat[1:] if x[0] == "byte"]
     want = ["file_type", "data_type", "gap_flag", "load_hi", "load_lo", "exec_hi", "exec_lo"]
     if len(rest) != len(want):
@@ -719,6 +744,11 @@ def cas5(ctx, c):
                     "read_file reads the file name at frame offset %s, the writer stores it at %d" % (off, lay["name"][0]), w)
         else:
             c.undecided("read_file:name", "name-helper-not-found", "", w)
+        # the position handed back must be where the block reader stopped (the next file is searched from there)
+        rp = v.args[1] if len(v.args) > 1 else None
+        goodrp = isinstance(rp, Ctor) and rp.cls == "item" and isinstance(rp.args[0], Ctor) and rp.args[0].cls == "call:self.read_blocks" and isinstance(rp.args[1], Const) and rp.args[1].v == 1
+        c.check(goodrp, "read_file:resume", "returns the position where read_blocks stopped", "returns %s" % repr(rp)[:60],
+                "read_file hands back %s as the place to continue; the next file must be searched after this file's EOF block (otherwise data bytes that look like a header are listed as files)" % repr(rp)[:80], w)
         # (c) where block reading starts
         dv = cf.kw.get("data")
         start = None
